@@ -387,6 +387,13 @@ func (n *ReconcileNode) syncWithAPI(ctx context.Context, node *networkv1beta1.No
 			log.Info("sync eni with remote, old eni merged")
 			// exist record
 			// only ip is updated
+			// mergeIPMap can not hand a new map back: a record without any address of a family has a nil map
+			if crENI.IPv4 == nil {
+				crENI.IPv4 = make(map[string]*networkv1beta1.IP)
+			}
+			if crENI.IPv6 == nil {
+				crENI.IPv6 = make(map[string]*networkv1beta1.IP)
+			}
 			mergeIPMap(log, remote.IPv4, crENI.IPv4)
 			mergeIPMap(log, remote.IPv6, crENI.IPv6)
 
